@@ -12,6 +12,22 @@ type Options struct {
 	// AllowWSInQName accepts whitespace around the ':' of a QName / NameTest
 	// and after the '$' of a variable reference.
 	AllowWSInQName bool
+	// OpNamesReserved: an NCName spelled or/and/div/mod is only ever an
+	// operator; as a name test, function name or QName part it is a syntax
+	// error (it remains usable in variable references).
+	OpNamesReserved bool
+	// NoTrailingDotNumber rejects the numeral form Digits '.' (e.g. "1.").
+	NoTrailingDotNumber bool
+	// NoUnderscoreStart rejects NCNames that start with '_'.
+	NoUnderscoreStart bool
+	// UnicodeSpaceIsWS treats every Unicode space character as expression
+	// whitespace (XPath only allows #x20 #x9 #xD #xA).
+	UnicodeSpaceIsWS bool
+	// LiteralBackslashEscapes: inside a literal a backslash followed by one of
+	// \ quote n r t is consumed as a pair (the value keeps both characters),
+	// so the literal can extend past the quote XPath ends it at; the longest
+	// match wins.
+	LiteralBackslashEscapes bool
 }
 
 type tokKind int
@@ -37,6 +53,8 @@ type token struct {
 
 func isWS(r rune) bool { return r == ' ' || r == '\t' || r == '\r' || r == '\n' }
 
+func isOpName(s string) bool { return s == "or" || s == "and" || s == "div" || s == "mod" }
+
 func IsNameStart(r rune) bool { return unicode.IsLetter(r) || r == '_' || r == '#' }
 func IsNameChar(r rune) bool {
 	return IsNameStart(r) || unicode.IsDigit(r) || r == '.' || r == '-' || r == 0xB7 ||
@@ -52,7 +70,7 @@ func lex(s string, opt Options) ([]token, error) {
 	i := 0
 	for {
 		ws := false
-		for i < len(rs) && isWS(rs[i]) {
+		for i < len(rs) && (isWS(rs[i]) || (opt.UnicodeSpaceIsWS && unicode.IsSpace(rs[i]))) {
 			i++
 			ws = true
 		}
@@ -77,13 +95,21 @@ func lex(s string, opt Options) ([]token, error) {
 					i++
 				}
 			}
+			if opt.NoTrailingDotNumber && rs[i-1] == '.' {
+				return nil, fmt.Errorf("numeral with trailing '.' at %d", start)
+			}
 			out = append(out, token{k: tNum, s: string(rs[start:i]), ws: ws, pos: start})
 		case r == '"' || r == '\'':
 			i++
 			for i < len(rs) && rs[i] != r {
 				i++
 			}
-			if i >= len(rs) {
+			if opt.LiteralBackslashEscapes {
+				if e := longestEscapedLiteral(rs, start); e > i || i >= len(rs) || r == '"' {
+					i = e
+				}
+			}
+			if i >= len(rs) || i < 0 {
 				return nil, fmt.Errorf("unterminated literal at %d", start)
 			}
 			out = append(out, token{k: tLit, s: string(rs[start+1 : i]), quote: byte(r), ws: ws, pos: start})
@@ -123,6 +149,9 @@ func lex(s string, opt Options) ([]token, error) {
 			}
 			out = append(out, token{k: tVar, s: name, ws: ws, pos: start})
 		case IsNameStart(r):
+			if opt.NoUnderscoreStart && r == '_' {
+				return nil, fmt.Errorf("name starting with '_' at %d", start)
+			}
 			n, j := lexNCName(rs, i)
 			i = j
 			out = append(out, token{k: tName, s: n, ws: ws, pos: start})
@@ -143,6 +172,42 @@ func lex(s string, opt Options) ([]token, error) {
 			return nil, fmt.Errorf("unexpected character %q at %d", r, start)
 		}
 	}
+}
+
+// longestEscapedLiteral returns the index of the closing quote of the longest
+// token matching  q ( [^q] | '\\' [\\ q n r t] )* q  starting at start, or -1.
+func longestEscapedLiteral(rs []rune, start int) int {
+	q := rs[start]
+	best := -1
+	// positions reachable after consuming a prefix of the body
+	reach := map[int]bool{start + 1: true}
+	for len(reach) > 0 {
+		next := map[int]bool{}
+		for p := range reach {
+			if p >= len(rs) {
+				continue
+			}
+			if rs[p] == q {
+				if p > best {
+					best = p
+				}
+				continue
+			}
+			// a single-quoted literal may also take the backslash as a plain
+			// character; a double-quoted one may not (its grammar excludes it)
+			if !(q == '"' && rs[p] == '\\') {
+				next[p+1] = true
+			}
+			if rs[p] == '\\' && p+1 < len(rs) {
+				switch rs[p+1] {
+				case '\\', q, 'n', 'r', 't':
+					next[p+2] = true
+				}
+			}
+		}
+		reach = next
+	}
+	return best
 }
 
 func lexNCName(rs []rune, i int) (string, int) {
@@ -284,8 +349,14 @@ func (p *parser) qnameAhead() (string, string, int) {
 	if t.k != tName {
 		return "", "", 0
 	}
+	if p.opt.OpNamesReserved && isOpName(t.s) {
+		return "", "", 0
+	}
 	c, n := p.peek2(), p.peekN(2)
 	if c.k == tColon && p.tight(c) && n.k == tName && p.tight(n) {
+		if p.opt.OpNamesReserved && isOpName(n.s) {
+			return "", "", 0
+		}
 		return t.s, n.s, 3
 	}
 	return "", t.s, 1
@@ -434,7 +505,9 @@ func (p *parser) pathExpr() (Expr, error) {
 func (p *parser) startsStep() bool {
 	t := p.peek()
 	switch t.k {
-	case tName, tStar:
+	case tName:
+		return !(p.opt.OpNamesReserved && isOpName(t.s))
+	case tStar:
 		return true
 	case tPunct:
 		return t.s == "." || t.s == ".." || t.s == "@"
@@ -511,12 +584,18 @@ func (p *parser) nodeTest() (Test, error) {
 		// '*' or '*:name' (extension)
 		c, n := p.peek2(), p.peekN(2)
 		if c.k == tColon && p.tight(c) && n.k == tName && p.tight(n) {
+			if p.opt.OpNamesReserved && isOpName(n.s) {
+				return Test{}, fmt.Errorf("operator name %q used as a name at %d", n.s, n.pos)
+			}
 			p.i += 3
 			return Test{Kind: TName, Prefix: "*", Local: n.s}, nil
 		}
 		p.i++
 		return Test{Kind: TName, Local: "*"}, nil
 	case tName:
+		if p.opt.OpNamesReserved && isOpName(t.s) {
+			return Test{}, fmt.Errorf("operator name %q used as a name at %d", t.s, t.pos)
+		}
 		nx := p.peek2()
 		if nx.k == tPunct && nx.s == "(" && IsNodeType(t.s) {
 			p.i += 2
@@ -543,6 +622,9 @@ func (p *parser) nodeTest() (Test, error) {
 		if nx.k == tColon && p.tight(nx) {
 			n := p.peekN(2)
 			if n.k == tName && p.tight(n) {
+				if p.opt.OpNamesReserved && isOpName(n.s) {
+					return Test{}, fmt.Errorf("operator name %q used as a name at %d", n.s, n.pos)
+				}
 				p.i += 3
 				return Test{Kind: TName, Prefix: t.s, Local: n.s}, nil
 			}
